@@ -147,7 +147,9 @@ class PredEval:
 
     def table(self) -> Table:
         # subjects that are loop variables/locals are resolved through the environment, not enumerated
-        subj_keys = [k for k in self.subjects if k not in self.locals_ and k not in self.params and self.subject_ok(k)]
+        fn_params = {a.arg for a in self.f.node.args.posonlyargs + self.f.node.args.args + self.f.node.args.kwonlyargs}
+        self._param_subjects = {k for k in self.subjects if k in fn_params and k not in self.params}
+        subj_keys = [k for k in self.subjects if (k not in self.locals_ or k in self._param_subjects) and k not in self.params and self.subject_ok(k)]
         # first pass to discover opaque atoms: evaluate with a recording env
         self._atoms_seen: list[str] = []
         doms = [self.subjects[k] + [OTHER] for k in subj_keys]
@@ -185,6 +187,9 @@ class PredEval:
         self._env = env
         self._aenv = aenv
         self._loc: dict[str, Any] = dict(self.params)
+        for k in getattr(self, "_param_subjects", ()):  # a parameter that is later re-bound starts at its enumerated value
+            if k in env:
+                self._loc[k] = env[k]
         try:
             self._block(self.f.node.body)
         except _Return as r:
